@@ -27,6 +27,12 @@ func cfgA() cors.Config {
 	return cors.Config{Origins: []string{"https://a.example"}, Methods: []string{"PUT"}, RequestHeaders: []string{"X-A"}, ResponseHeaders: []string{"X-Ra"}, MaxAgeInSeconds: 30}
 }
 
+// cfgAplus keeps A's origin list as a prefix and adds patterns on the same host (other port, other scheme,
+// subdomains); every other observable aspect differs from A.
+func cfgAplus() cors.Config {
+	return cors.Config{Origins: []string{"https://a.example", "https://a.example:8443", "http://a.example", "https://*.a.example"}, Methods: []string{"PUT", "PATCH"}, RequestHeaders: []string{"X-A", "X-P"}, ResponseHeaders: []string{"X-Rp"}, MaxAgeInSeconds: 60}
+}
+
 func cfgB() cors.Config {
 	return cors.Config{Origins: []string{"https://b.example"}, Credentialed: true, Methods: []string{"DELETE", "PATCH"}, RequestHeaders: []string{"X-B", "Authorization"}, ResponseHeaders: []string{"X-Rb", "X-Rc"}, MaxAgeInSeconds: -1,
 		ExtraConfig: cors.ExtraConfig{PreflightSuccessStatus: 200, PrivateNetworkAccess: true}}
@@ -58,6 +64,8 @@ var requests = map[string]reqSpec{
 	"actual-A":              {"GET", map[string][]string{"Origin": {"https://a.example"}}},
 	"actual-B":              {"GET", map[string][]string{"Origin": {"https://b.example"}}},
 	"noncors-options":       {"OPTIONS", nil},
+	// allowed only once A's origin list has been extended (A+)
+	"actual-Aplus": {"GET", map[string][]string{"Origin": {"https://a.example:8443"}}},
 }
 
 // srw is a ResponseWriter whose every method is a visible operation: a reconfiguration can land at each point
@@ -143,6 +151,9 @@ func doOp(m *cors.Middleware, o opSpec) string {
 			err = m.Reconfigure(&c)
 		case "B":
 			c := cfgB()
+			err = m.Reconfigure(&c)
+		case "A+":
+			c := cfgAplus()
 			err = m.Reconfigure(&c)
 		case "invalid":
 			c := cfgInvalid()
@@ -499,6 +510,17 @@ func scenarios(thorough bool) []scenario {
 	reqs := []string{"preflight-fail-method", "preflight-ok-A", "actual-A", "actual-B", "noncors-options", "preflight-ok-B"}
 	ctl := []opSpec{{"reconfigure", "B"}, {"reconfigure", "nil"}, {"reconfigure", "A"}, {"reconfigure", "invalid"}, {"setdebug", "true"}, {"setdebug", "false"}, {"config", ""}}
 	var out []scenario
+	// a reconfiguration that extends the current origin list, against requests from an old and from an added origin
+	for _, in := range inits {
+		for _, r := range []string{"actual-A", "actual-Aplus", "preflight-ok-A"} {
+			out = append(out, scenario{in, [][]opSpec{{{"request", r}}, {{"reconfigure", "A+"}}}, -1})
+			for _, c2 := range ctl {
+				out = append(out, scenario{in, [][]opSpec{{{"request", r}}, {{"reconfigure", "A+"}, c2}}, -1})
+				out = append(out, scenario{in, [][]opSpec{{{"request", r}}, {c2, {"reconfigure", "A+"}}}, -1})
+			}
+			out = append(out, scenario{in, [][]opSpec{{{"request", r}}, {{"request", "actual-Aplus"}}, {{"reconfigure", "A+"}}}, 3})
+		}
+	}
 	for _, in := range inits {
 		for _, r := range reqs {
 			// one control operation: all interleavings
